@@ -270,10 +270,18 @@ fn run_flavour(prop: &dyn Prop, cfg: &DriverCfg, cases: &[Case], flavour: &str, 
   let n = cfg.jobs.max(1).min(cases.len().max(1));
   let wd = prop.watchdog(cfg.tier);
   let mut results: BTreeMap<usize, Outcome> = BTreeMap::new();
+  // the sanitizer flavour is about ten times slower: it runs a strided sample of the cases (at most VERIF_ASAN_CAP, default
+  // 12000; the stride's phase rotates with the seed), every cell family still being visited because neighbouring cases differ in
+  // the fastest-changing dimension only
+  let cap: usize = std::env::var("VERIF_ASAN_CAP").ok().and_then(|v| v.parse().ok()).unwrap_or(12000);
+  let stride = if flavour == "asan" && cases.len() > cap { (cases.len() + cap - 1) / cap } else { 1 };
+  let phase = (cfg.seed as usize) % stride;
+  let sel = move |i: usize| -> bool { stride == 1 || (i / n) % stride == phase };
+  let case_prefix = if stride == 1 { "cases".to_string() } else { format!("cases-{}", flavour) };
   let spawn = |shard: usize, start: usize, log: &str| -> std::process::Child {
     let mut c = std::process::Command::new(&bin);
     c.args(["worker", prop.id(), "--tier", cfg.tier.name(), "--seed", &cfg.seed.to_string(), "--shard", &shard.to_string(), "--nshards", &n.to_string(), "--start", &start.to_string(), "--out", log, "--flavour", flavour]);
-    c.args(["--cases", &format!("{}/cases-{}.jsonl", work, shard)]);
+    c.args(["--cases", &format!("{}/{}-{}.jsonl", work, case_prefix, shard)]);
     c.stdout(std::process::Stdio::null()).stderr(std::process::Stdio::piped()).stdin(std::process::Stdio::null());
     if flavour == "asan" { c.env("ASAN_OPTIONS", format!("detect_leaks=0:abort_on_error=1:halt_on_error=1:log_path={}/asan.{}", work, shard)); }
     c.spawn().expect("spawn worker")
@@ -283,6 +291,12 @@ fn run_flavour(prop: &dyn Prop, cfg: &DriverCfg, cases: &[Case], flavour: &str, 
     let mut files: Vec<std::io::BufWriter<std::fs::File>> = (0..n).map(|s| std::io::BufWriter::new(std::fs::File::create(format!("{}/cases-{}.jsonl", work, s)).expect("create case file"))).collect();
     for (i, c) in cases.iter().enumerate() { writeln!(files[i % n], "{}", json!({"i": i, "c": c})).unwrap(); }
     for f in files.iter_mut() { f.flush().unwrap(); }
+  }
+  if stride > 1 && !std::path::Path::new(&format!("{}/{}-0.jsonl", work, case_prefix)).exists() {
+    let mut files: Vec<std::io::BufWriter<std::fs::File>> = (0..n).map(|s| std::io::BufWriter::new(std::fs::File::create(format!("{}/{}-{}.jsonl", work, case_prefix, s)).expect("create case file"))).collect();
+    for (i, c) in cases.iter().enumerate() { if sel(i) { writeln!(files[i % n], "{}", json!({"i": i, "c": c})).unwrap(); } }
+    for f in files.iter_mut() { f.flush().unwrap(); }
+    println!("note: flavour {} runs every {}th case of each shard ({} of {} cases)", flavour, stride, (0..cases.len()).filter(|i| sel(*i)).count(), cases.len());
   }
   let mut shards: Vec<Option<ShardState>> = Vec::new();
   for s in 0..n {
@@ -336,7 +350,7 @@ fn run_flavour(prop: &dyn Prop, cfg: &DriverCfg, cases: &[Case], flavour: &str, 
         }
         None => {
           // died between cases (e.g. at startup): harness trouble, mark the rest of this shard inconclusive
-          for (i, _) in cases.iter().enumerate() { if i % n == s && i >= st.start && !results.contains_key(&i) { results.insert(i, Outcome::inconclusive("worker-lost", format!("{} {}", how, stderr_txt))); } }
+          for (i, _) in cases.iter().enumerate() { if i % n == s && sel(i) && i >= st.start && !results.contains_key(&i) { results.insert(i, Outcome::inconclusive("worker-lost", format!("{} {}", how, stderr_txt))); } }
           shards[s] = None; continue;
         }
       };
